@@ -265,6 +265,23 @@ CLAIMS['C15'] = (
     'stub toolchain (binaries are not ELF; the patchelf request is checked, not its effect); file modes not compared',
     'DESIGN.md §6 C15')
 
+CLAIMS['C17'] = (
+    'exploration',
+    'exhaustive enumeration of specifier sets x splits judged by the real pkg-config on a version grid with a small-model argument; enumeration of package descriptions read back by the real pkg-config; consumer built by the real gcc',
+    '(a) every set of <= 2 (quick) / 3 (thorough) version specifiers over 6 operators x 3 versions, in every split '
+    'across requires / requires_private, and every Conflicts set of <= 2: the generated .pc is given to the real '
+    'pkg-config together with dummy dependency files of each version of a 7-point grid (every endpoint plus a point of '
+    'every open interval, so agreement on the grid is agreement on all versions); accepted versions must equal those '
+    'the script\'s specifiers accept and unsatisfiable sets must be rejected at configure time. (b) include '
+    'directory names and option values with spaces, quotes, $, #, \\, ;, parentheses, & x library kinds (shared in a '
+    'sub-directory, static chain with forwarded link options, dual) x auto_fill: --cflags, --libs, --libs --static and '
+    '--print-requires of the installed (real install) and -uninstalled files, before and after moving the build '
+    'directory, must denote exactly the declaration; a consumer compiled and linked by the real gcc with the reported '
+    'flags runs and prints the expected value.',
+    'pkg-config output is read by its own escaping rules (backslash-unescape, no $ expansion); pkgconf quirks '
+    '(merging of adjacent -Wl fragments, pre-escaped ${pcfiledir}) are avoided and noted in DESIGN.md',
+    'DESIGN.md §6 C17')
+
 # --- more claims are appended above this line ---
 NOT_YET = 'check not built yet in this session (see DESIGN.md §10 build order); not claimed until it is'
 NOT_APPLICABLE = {}
